@@ -23,6 +23,51 @@ SECTIONS = {
 }
 
 
+def _kw_hook(**kw):
+    """an argument-less hook (attached from config as a plain function / by a tool without settings): says which
+    keyword arguments it was called with"""
+    cherrypy.serving.response.headers['X-C10-KW'] = ','.join('%s=%s' % kv for kv in sorted(kw.items())) or '-'
+
+
+def _kw_tool(**kw):
+    cherrypy.serving.response.headers['X-C10-KWT'] = ','.join('%s=%s' % kv for kv in sorted(kw.items())) or '-'
+
+
+KW_PATHS = ['/tuned', '/other', '/bare', '/tuned2']
+
+
+def build_kw():
+    """site 2: argument-less hooks; one handler edits the kwargs of the hooks of ITS OWN request"""
+    cherrypy.tools.c10kw = _cptools.Tool('before_finalize', _kw_tool, priority=40)
+
+    class Root(object):
+        @cherrypy.expose
+        def tuned(self):
+            for hs in cherrypy.serving.request.hooks.values():
+                for h in hs:
+                    if h.callback in (_kw_hook, _kw_tool):
+                        h.kwargs['mark'] = 'tuned'
+            return b'tuned'
+
+        @cherrypy.expose
+        def tuned2(self):
+            for h in cherrypy.serving.request.hooks.get('before_finalize', []):
+                if h.callback is _kw_tool:
+                    h.kwargs.update(a=1, b=2)
+            return b'tuned2'
+
+        @cherrypy.expose
+        def other(self):
+            return b'other'
+
+        @cherrypy.expose
+        def bare(self):
+            return b'bare'
+    conf = {'/': {'hooks.before_finalize.c10kw': _kw_hook, 'tools.c10kw.on': True},
+            '/bare': {'tools.c10kw.on': False}}
+    return cherrypy.Application(Root(), '', conf)
+
+
 def _say(word='?', punct='', upper=False, tail=''):
     text = (word.upper() if upper else word) + punct + tail
     cherrypy.serving.response.headers['X-C10-PT'] = text
@@ -46,12 +91,14 @@ def build(kwargs):
 def call(app, path):
     out = {}
 
-    def start_response(status, headers, exc_info=None):
-        out['status'] = status
     env = {'REQUEST_METHOD': 'GET', 'SCRIPT_NAME': '', 'PATH_INFO': path, 'QUERY_STRING': '',
            'SERVER_NAME': 'localhost', 'SERVER_PORT': '80', 'SERVER_PROTOCOL': 'HTTP/1.1', 'HTTP_HOST': 'localhost',
            'wsgi.version': (1, 0), 'wsgi.url_scheme': 'http', 'wsgi.input': io.BytesIO(b''),
            'wsgi.errors': io.StringIO(), 'wsgi.multithread': False, 'wsgi.multiprocess': False, 'wsgi.run_once': False}
+
+    def start_response(status, headers, exc_info=None):
+        out['status'] = status
+        out['kw'] = ' '.join('%s:%s' % (k, v) for k, v in sorted(headers) if k.upper().startswith('X-C10-KW'))
     try:
         it = app(env, start_response)
         try:
@@ -61,7 +108,7 @@ def call(app, path):
                 it.close()
     except Exception as e:      # noqa: BLE001 - an observation
         return 'escaped:%s' % type(e).__name__
-    return '%s %s' % (out.get('status', '?')[:3], body.decode('latin-1')[:80])
+    return ('%s %s %s' % (out.get('status', '?')[:3], body.decode('latin-1')[:80], out.get('kw', ''))).strip()
 
 
 KWARGS = [{'word': 'hi', 'punct': '.'}, {'word': 'hi'}, {}]
@@ -74,6 +121,10 @@ def cases():
             for hist in itertools.product(PATHS, repeat=n):
                 if len(set(hist)) > 1:
                     out.append({'pagetool': 1, 'kwargs': kw, 'history': list(hist)})
+    for n in (2, 3):
+        for hist in itertools.product(KW_PATHS, repeat=n):
+            if len(set(hist)) > 1 and any(p.startswith('/tuned') for p in hist):
+                out.append({'pagetool': 2, 'kwargs': {}, 'history': list(hist)})
     return out
 
 
@@ -82,19 +133,23 @@ def run_all(cs):
     res = []
     alone = {}
     for c in cs:
-        key = repr(sorted(c['kwargs'].items()))
+        key = repr(sorted(c['kwargs'].items())) + str(c['pagetool'])
+        mk = (lambda: build_kw()) if c['pagetool'] == 2 else (lambda: build(c['kwargs']))
         for p in set(c['history']):
             if (key, p) not in alone:
-                alone[(key, p)] = call(build(c['kwargs']), p)
-        app = build(c['kwargs'])
+                alone[(key, p)] = call(mk(), p)
+        app = mk()
         got = [call(app, p) for p in c['history']]
         bad = []
         for i, (p, g) in enumerate(zip(c['history'], got)):
             want = alone[(key, p)]
             if g != want:
                 bad.append(('request %d (%s) of the history %s was answered %r; as the only request ever served it is '
-                            'answered %r (tools.c10pt.handler(**%r) page handler, per-path settings %r)'
-                            % (i, p, c['history'], g, want, c['kwargs'], SECTIONS.get(p)),
+                            'answered %r (%s)'
+                            % (i, p, c['history'], g, want,
+                               'argument-less hooks; /tuned edits the kwargs of the hooks of its own request'
+                               if c['pagetool'] == 2 else
+                               'tools.c10pt.handler(**%r) page handler, per-path settings %r' % (c['kwargs'], SECTIONS.get(p))),
                             'pagetool:history_dependent'))
                 break
         res.append((c, bad))
